@@ -83,7 +83,15 @@ func genGroupKey(t *rapid.T) *ast.Node {
 }
 
 func genGroupValue(t *rapid.T) *ast.Node {
-	switch rapid.IntRange(0, 9).Draw(t, "valKind") {
+	switch rapid.IntRange(0, 13).Draw(t, "valKind") {
+	case 10: // the group's items themselves
+		return ast.VarN("")
+	case 11: // the first item of the group
+		return ast.PredN(ast.VarN(""), ast.NumN(0))
+	case 12: // a path through the items
+		return ast.PathN(ast.VarN(""), ast.NameN("id"))
+	case 13: // items kept as an array
+		return ast.ArrN(ast.VarN(""))
 	case 0, 1, 2:
 		return ast.NameN("v")
 	case 3:
